@@ -28,7 +28,7 @@ if verified:
                          "first_violation": next((l.strip()[:300] for l in out.splitlines() if l.strip().startswith("kind=")), "")}
         if rc == 1:
             break
-dst = os.path.join(VERIF, "seeded", "%s-%s%s" % (prop, "" if rnd == "seed" else "r2", m))
+dst = os.path.join(VERIF, "seeded", "%s-%s%s" % (prop, {"seed": "", "seed2": "r2", "seed3": "r3", "seed4": "r4"}.get(rnd, rnd), m))
 os.makedirs(dst, exist_ok=True)
 shutil.copy(patch, os.path.join(dst, "patch.diff"))
 shutil.copy(demo, os.path.join(dst, "demo_test.go"))
@@ -36,7 +36,7 @@ notes = ""
 if os.path.exists(os.path.join(src, "NOTES.md")):
     notes = open(os.path.join(src, "NOTES.md")).read()
     shutil.copy(os.path.join(src, "NOTES.md"), os.path.join(dst, "NOTES.md"))
-meta = {"property": prop, "mutant": m, "origin": "independent sub-agent given only the property text and a scratch worktree" + ("" if rnd == "seed" else " (second round: also told which regressions the first round had produced)"),
+meta = {"property": prop, "mutant": m, "origin": "independent sub-agent given only the property text and a scratch worktree" + ("" if rnd == "seed" else " (later round: also told which regressions the earlier rounds had produced)"),
         "verified": verified, "verification": vout.strip().splitlines(),
         "what_i_ran": ["tools/mutant.py verify patch.diff demo_test.go", "tools/mutant.py check %s patch.diff --tier quick" % prop],
         "check_results": results}
